@@ -95,3 +95,65 @@ def report(ctx, rule):
     else:
         desc, what = problems[0]
         ctx.fail(rule, f, f.node, "registration model: %s: %s (%d disagreeing case(s))" % (desc, what, len(problems)), key=f.qualname + "::registration-model", input=desc)
+
+
+def api_model(ctx):
+    """The public registration calls: watch(...) and watch_values(...) interpreted with a distinct abstract value for every
+    argument; the Watcher record handed to _register_watcher must carry every argument given (a dropped `queued`,
+    `onlychanged` or `precedence` silently falls back to the default), the right calling mode, and the names as a tuple."""
+    problems, n = [], 0
+    for api, mode in (("watch", "args"), ("watch_values", "kwargs")):
+        f = ctx.repo.func(P + "Parameters." + api)
+        for names_in, queued, onlychanged, precedence in itertools.product([["a", "b"], "a"], [True, False], [True, False], [0, 7]):
+            fn = Obj("callback")
+            inst = Obj("instance")
+            cls = Obj("Cls")
+            ns = Obj("ns", self=inst, cls=cls)
+            registered = []
+
+            def hook(fn_, args, kwargs):
+                if fn_ == "self_._register_watcher":
+                    registered.append((args, kwargs))
+                    return None
+                if fn_ == "isinstance" and len(args) == 2 and args[1] in ("<type list>", "<type tuple>", "<type str>"):
+                    return {"<type list>": isinstance(args[0], list), "<type tuple>": isinstance(args[0], tuple), "<type str>": isinstance(args[0], str)}[args[1]]
+                return NotImplemented
+            it = Interp(ctx.hier, dyn=P + "Parameters", inline=lambda m: m == "_watch", call_hook=hook, strict_self_calls=True)
+            try:
+                outs = it.run_all(f, {"self_": ns, "fn": fn, "parameter_names": list(names_in) if isinstance(names_in, list) else names_in, "what": "value",
+                                      "onlychanged": onlychanged, "queued": queued, "precedence": precedence})
+            except Unsupported as e:
+                raise AnalysisError("registration model: absint cannot interpret Parameters.%s: %s" % (api, e))
+            if len(outs) != 1 or outs[0].imprecise or outs[0].kind != "return":
+                raise AnalysisError("registration model: Parameters.%s is not interpretable precisely (%s)" % (api, outs[0].notes[:2] if outs else "no outcome"))
+            n += 1
+            desc = "%s(fn, %r, onlychanged=%s, queued=%s, precedence=%s)" % (api, names_in, onlychanged, queued, precedence)
+            if len(registered) != 1 or len(registered[0][0]) < 2 or registered[0][0][0] != "append":
+                problems.append((desc, "registers %d watcher(s)" % len(registered)))
+                continue
+            w = registered[0][0][1]
+            fields = getattr(w, "kwargs", None)
+            if not isinstance(fields, dict):
+                raise AnalysisError("registration model: the Watcher built by Parameters.%s is not a keyword-built record (%r)" % (api, w))
+            want = {"inst": inst, "cls": cls, "fn": fn, "mode": mode, "onlychanged": onlychanged, "parameter_names": tuple(names_in) if isinstance(names_in, list) else (names_in,),
+                    "what": "value", "queued": queued, "precedence": precedence}
+            for k, v in want.items():
+                got = fields.get(k, "<not given>")
+                same = (got is v) if isinstance(v, Obj) or isinstance(v, bool) else (got == v and type(got) is type(v))
+                if not same:
+                    problems.append((desc, "the registered Watcher has %s=%r, specification %r%s" % (k, got, v,
+                                     ": assignments made by the callback are dispatched while it is still running instead of after it" if k == "queued" else "")))
+            if outs[0].value is not w:
+                problems.append((desc, "returns %r, not the registered Watcher (it could never be unwatched)" % (outs[0].value,)))
+    return n, problems
+
+
+def report_api(ctx, rule):
+    n, problems = api_model(ctx)
+    f = ctx.repo.func(P + "Parameters.watch_values")
+    ctx.abstract_cases += n
+    if not problems:
+        ctx.ok(rule, f, f.node, "registration model (public calls), %d abstract cases: the Watcher registered by watch / watch_values carries every argument given" % n)
+    else:
+        desc, what = problems[0]
+        ctx.fail(rule, f, f.node, "registration model: %s: %s (%d disagreeing case(s))" % (desc, what, len(problems)), key=f.qualname + "::watch-api-model", input=desc)
